@@ -13,7 +13,7 @@ use serde_json::{json, Value};
 pub fn def() -> PropDef {
     PropDef {
         id: "C18",
-        rule: "files = generated trees (Lua 5.1 / Luau / typed) printed with comments of every kind in every trivia position, plus empty files, comment-only files, files ending in a line comment or without final newline; configurations: remove_comments with `except` regex sets (none / ^--! / TODO / .* / unanchored / several), remove_spaces, append_text_comment at start / end with generated texts, and the three combined; append texts are also enumerated exhaustively over the alphabet {[ ] = LF CR - a space e-acute} up to length 4 (quick) / 5 (thorough). Oracle (independent lexer): code-token stream of output == input; remove_comments keeps exactly the comments matching an except pattern (same regex crate), in order; remove_spaces keeps every comment; append_text_comment adds exactly one comment, first / last in the file, containing the text verbatim, and with `end` no original token changes line; output parses. Non-trivial = >= 3 comments in the file, or an appended text containing a bracket / CR / LF; distinct by (file, configuration).",
+        rule: "files = generated trees (Lua 5.1 / Luau / typed) printed with comments of every kind in every trivia position, plus empty files, comment-only files, files ending in a line comment or without final newline; configurations: remove_comments with `except` regex sets (none / ^--! / TODO / .* / unanchored / several), remove_spaces, append_text_comment at start / end with generated texts, and the three combined; append texts are also enumerated exhaustively over the alphabet {[ ] = LF CR - a space e-acute} up to length 4 (quick) / 5 (thorough), and over the closer alphabet {] = LF x} for lengths 5 to 8 (quick) / 9 (thorough); random rule sets also assemble texts from bracket fragments of several levels. Oracle (independent lexer): code-token stream of output == input; remove_comments keeps exactly the comments matching an except pattern (same regex crate), in order; remove_spaces keeps every comment; append_text_comment adds exactly one comment, first / last in the file, containing the text verbatim, and with `end` no original token changes line; output parses. Non-trivial = >= 3 comments in the file, or an appended text containing a bracket / CR / LF; distinct by (file, configuration).",
         assumptions: &["the `regex` crate decides which comments an `except` pattern selects (trusted)", "generator = retain_lines (the rules act on tokens)"],
         run,
         replay,
@@ -260,7 +260,17 @@ fn gen_rules(t: &mut Tape) -> Vec<RuleSpec> {
     let one = |t: &mut Tape| match t.weighted(&[4, 3, 4]) {
         0 => RuleSpec::RemoveComments(EXCEPTS[t.choose(EXCEPTS.len())].iter().map(|s| s.to_string()).collect()),
         1 => RuleSpec::RemoveSpaces,
-        _ => RuleSpec::Append { text: TEXTS[t.choose(TEXTS.len())].to_string(), end: t.bool(128) },
+        _ => {
+            let text = if t.bool(96) {
+                // assembled from bracket fragments: closers and openers of several levels next to each other
+                const FRAGS: [&str; 14] = ["]", "]]", "]=]", "]==]", "=", "[", "[[", "[=[", "\n", "\r", "x", " ", "--", "é"];
+                let k = 1 + t.choose(7);
+                (0..k).map(|_| FRAGS[t.choose(FRAGS.len())]).collect::<String>()
+            } else {
+                TEXTS[t.choose(TEXTS.len())].to_string()
+            };
+            RuleSpec::Append { text, end: t.bool(128) }
+        }
     };
     if t.bool(90) {
         // combination in random order
@@ -316,6 +326,38 @@ fn run(ctx: &RunCtx) {
         let nt = text.contains(['[', ']', '\n', '\r']);
         if nt {
             st.class("append_text_with_bracket_or_newline");
+        }
+        match check(&case) {
+            Ok(()) => CaseResult::Pass { nontrivial: nt.then(|| hash_str(&case_json(&case).to_string())) },
+            Err(m) => CaseResult::Fail(Failure::new(m, case_json(&case))),
+        }
+    });
+    // long-bracket closers of several levels, overlapping or side by side, in texts that take the long
+    // comment form: every text over {] = LF x} up to length 8 (quick) / 9 (thorough)
+    let closers = ["]", "=", "\n", "x"];
+    let cmax = ctx.tier.pick(8u32, 9u32);
+    let mut ctotal = 0u64;
+    for l in 5..=cmax {
+        ctotal += 4u64.pow(l);
+    }
+    ctx.add_class("exhaustive_closer_texts", ctotal);
+    ctx.enumerate("closer_texts", ctotal * 2, |mut i, st| {
+        let end = i % 2 == 1;
+        i /= 2;
+        let mut l = 5u32;
+        while i >= 4u64.pow(l) {
+            i -= 4u64.pow(l);
+            l += 1;
+        }
+        let mut text = String::new();
+        for _ in 0..l {
+            text.push_str(closers[(i % 4) as usize]);
+            i /= 4;
+        }
+        let case = Case { source: "return 1 -- c".to_string(), rules: vec![RuleSpec::Append { text: text.clone(), end }] };
+        let nt = text.contains('\n') && text.matches(']').count() >= 3;
+        if nt {
+            st.class("closer_text_multi_line_with_three_brackets");
         }
         match check(&case) {
             Ok(()) => CaseResult::Pass { nontrivial: nt.then(|| hash_str(&case_json(&case).to_string())) },
